@@ -39,11 +39,12 @@ pub struct Rd {
 impl Rd {
     fn wit(&self, what: &str) -> String {
         format!(
-            "{} reader={:?} min_chunk={} buffer={} {what}",
+            "{} reader={:?} min_chunk={} buffer={} byte_limit={} {what}",
             self.cfg.ep.label(),
             self.cfg.ep.read_mode,
             self.cfg.ep.min_chunk_size,
-            self.cfg.ep.max_payload_buffer_size
+            self.cfg.ep.max_payload_buffer_size,
+            self.cfg.ep.max_receive_size
         )
     }
     fn detail(&self) -> String {
@@ -214,7 +215,13 @@ pub fn configs(full: bool) -> Vec<RdCfg> {
                     ep.max_payload_buffer_size = buffer;
                     ep.handler_auto = true;
                     ep.max_receive = 16;
-                    v.push(RdCfg { ep, sizes: vec![12, 7], steps: if full { vec![1, 3, 6, 9] } else { vec![1, 6, 9] }, max_deliveries: if full { 6 } else { 4 } });
+                    v.push(RdCfg { ep: ep.clone(), sizes: vec![12, 7], steps: if full { vec![1, 3, 6, 9] } else { vec![1, 6, 9] }, max_deliveries: if full { 6 } else { 4 } });
+                    // servers: a byte limit smaller than the first publish (the one packet of slack): its
+                    // remaining pieces must still be read and delivered
+                    if role == Role::Server && read_mode != ReadMode::Abandon && (full || min_chunk == 4) {
+                        ep.max_receive_size = 10;
+                        v.push(RdCfg { ep, sizes: vec![12, 7], steps: if full { vec![1, 3, 6, 9] } else { vec![1, 6, 9] }, max_deliveries: if full { 6 } else { 4 } });
+                    }
                 }
             }
         }
